@@ -103,3 +103,82 @@ def run(ctx):
     ctx.correspond("aes.c", lines, outs, classes)
     # lines where the real code raises (non-block-multiple decrypt of a recorder never raises; kept for completeness)
     ctx.correspond("aes.d", dl, do, dc)
+
+
+# ------------------------------------------------------------------ key material
+# Passwords in every normalisation form: precomposed, decomposed (base + combining marks), conjoining jamo,
+# compatibility singletons (ANGSTROM SIGN, OHM SIGN), astral characters (surrogate pairs in UTF-16), empty, long.
+PASSWORDS = ["secret", "", "p\u00e4ssw\u00f6rd", "pa\u0308sswo\u0308rd", "\u30d1\u30b9\u30ef\u30fc\u30c9", "\U0001F511key", "a" * 70,
+             "e\u0327\u0301x", "\u1100\u1161\u11a8", "\u212Bngstro\u0308m\u2126", "\ufb01le \u01c4", "q\u0307\u0323"]
+
+
+def equivalents(pw):
+    """other spellings of the same text (canonical / compatibility forms): every one of them is a WRONG password"""
+    import unicodedata
+    out = []
+    for form in ("NFC", "NFD", "NFKC", "NFKD"):
+        v = unicodedata.normalize(form, pw)
+        if v != pw and v not in out:
+            out.append(v)
+    return out
+
+
+def _km_session(job):
+    """what reaches the key derivation when an archive is written and read with `pw`: calculate_key's arguments,
+    recorded through the module attribute the compressor looks up (no source change)"""
+    pw, how = job
+    import io
+    import py7zr
+    import py7zr.compressor as comp
+    rec = []
+    real = comp.calculate_key
+
+    def spy(password, cycles, salt, digest):
+        rec.append((bytes(password), cycles, bytes(salt), digest))
+        return real(password, cycles, salt, digest)
+    comp.calculate_key = spy
+    try:
+        buf = io.BytesIO()
+        kw = {"header_encryption": True} if how == "hdr" else {}
+        with py7zr.SevenZipFile(buf, "w", password=pw, **kw) as z:
+            z.writestr(b"content", "m")
+        if how == "app":
+            buf.seek(0)
+            with py7zr.SevenZipFile(buf, "a", password=pw) as z:
+                z.writestr(b"more", "n")
+        nw = len(rec)
+        buf.seek(0)
+        with py7zr.SevenZipFile(buf, "r", password=pw) as z:
+            z.testzip()
+    finally:
+        comp.calculate_key = real
+    return [(p.hex(), c, s.hex(), d, i < nw) for i, (p, c, s, d) in enumerate(rec)]
+
+
+def run_km(ctx):
+    import sandbox
+    rng = ctx.rng
+    pws = list(PASSWORDS)
+    for _ in range(40 if ctx.thorough else 12):
+        n = rng.randrange(1, 9)
+        pool = [0x61, 0x308, 0x301, 0xE4, 0x1100, 0x1161, 0x212B, 0x2126, 0xFB01, 0xFFFF, 0x10000, 0x1F511, 0x10FFFF, 0xD7FF, 0xE000, 0x20, 0x7F, 0x80]
+        pws.append("".join(chr(rng.choice(pool)) for _ in range(n)))
+    jobs = [(pw, how) for i, pw in enumerate(pws) for how in (("plain", "hdr", "app") if i < len(PASSWORDS) else (rng.choice(["plain", "hdr", "app"]),))]
+    res = sandbox.pmap(_km_session, jobs, timeout=120)
+    lines, outs, classes = [], [], []
+    for (pw, how), (st, val) in zip(jobs, res):
+        conf = {"password": [ord(c) for c in pw], "session": how}
+        if st != "ok":
+            ctx.fail("C11:kdf_session_" + st, "a write/read session with this password did not complete: %s" % str(val)[:200], conf)
+            continue
+        if not val:
+            ctx.fail("C11:not_encrypted", "a password was given and the key derivation never ran", conf)
+            continue
+        import unicodedata
+        for phex, cycles, shex, digest, writing in val:
+            lines.append("aes.km %s %s" % (shex or "-", ",".join(str(ord(c)) for c in pw) or "-"))
+            outs.append((shex + phex) or "-")
+            classes.append(("nfc" if unicodedata.normalize("NFC", pw) == pw else "not-nfc") + ("/astral" if any(ord(c) > 0xFFFF for c in pw) else "") + "/" + how + ("/w" if writing else "/r"))
+            if cycles != 19 and writing:
+                ctx.count("kdf-cycles", str(cycles))
+    ctx.correspond("aes.km", lines, outs, classes)
